@@ -32,7 +32,7 @@ func checkListerTable(c *Ctx) {
 	isListCall := func(t *Term) bool { return t != nil && t.K == "call" && t.S == "_lister.list" }
 	armOf := func(pa *Path) (string, *Effect) {
 		for _, e := range pa.Effects {
-			if e.Kind == "select" && e.Blocking && e.Depth == 0 {
+			if e.Kind == "select" && e.Blocking {
 				if e.Arm < 0 {
 					return "?", e
 				}
@@ -320,7 +320,7 @@ func checkTickerTable(c *Ctx) {
 	isTimerC := func(t *Term) bool { return t.IsField("C") && isTimer(t.A[0]) }
 	armOf := func(pa *Path) (string, *Effect) {
 		for _, e := range pa.Effects {
-			if e.Kind == "select" && e.Blocking && e.Depth == 0 {
+			if e.Kind == "select" && e.Blocking {
 				if e.Arm < 0 {
 					return "?", e
 				}
